@@ -25,6 +25,7 @@ EXPLANATION = (
     "the tic/toc timer. C14.7: returned objects/arrays alias no argument. Not decided: numerical grid values, reproducibility of "
     "third-party code given the seed.")
 EXPLANATION += (" Added after the audit wave: C14.4 clean() builds its delete list by NAME from the instance dictionary; a filter on the attribute's value (e.g. `not callable`) lets functions, classes and signal objects survive.")
+EXPLANATION += (" Second audit wave: C14.5 an in-place operator on a parameter that was not rebound first (`D *= k`) is a write to the caller's array whenever an array is passed (parameters annotated int/bool/str excepted).")
 TRUSTED = ["numpy/scipy/sklearn copy-vs-view and randomness semantics as summarised in ocv/effects.py", "sklearn KMeans(random_state=None) draws from numpy's global RandomState", "CPython ast"]
 
 GV_CLASS = "global_variables"
@@ -298,6 +299,20 @@ def rule_purity(ctx, eff):
         for (p, path, attr), node in s.attr_writes.items():
             if p in fi.params and attr in SAMPLE_FIELDS:
                 bad.append((f"{p}{path}.{attr}", node))
+        # an in-place operator on a parameter that was not rebound first (`D *= k`): numbers are immutable and get rebound, an
+        # array held by the caller is overwritten - the caller's value changes and the same call repeated gives another result
+        rebound = set()
+        for n in sorted((n for n in ast.walk(fi.node) if isinstance(n, (ast.Assign, ast.AnnAssign, ast.AugAssign, ast.For, ast.With))), key=lambda n: (n.lineno, n.col_offset)):
+            if isinstance(n, ast.AugAssign):
+                t = n.target
+                if isinstance(t, ast.Name) and t.id in fi.params and t.id not in rebound and _annotation(fi, t.id) not in ("int", "bool", "str"):
+                    bad.append((t.id, n))
+                continue
+            tgts = n.targets if isinstance(n, ast.Assign) else [n.target] if isinstance(n, (ast.AnnAssign, ast.For)) else [i.optional_vars for i in n.items if i.optional_vars is not None]
+            for tg in tgts:
+                for x in ast.walk(tg):
+                    if isinstance(x, ast.Name) and isinstance(x.ctx, ast.Store):
+                        rebound.add(x.id)
         if bad:
             for what, node in bad:
                 ctx.violation("C14.5", fi, node, f"{fi.qualname}: in-place write reaching argument data `{what}` via `{src_of(node)[:120]}`",
@@ -313,6 +328,14 @@ def rule_purity(ctx, eff):
             ctx.violation("C14.7", fi, fi.node, f"{fi.qualname}: result may alias {sorted(set(p + path for p, path in roots))}", "an output shares memory with an input buffer")
         else:
             ctx.holds("C14.7", fi, fi.node, f"{fi.qualname}: outputs", "alias no argument")
+
+
+def _annotation(fi, p):
+    a = fi.node.args
+    for arg in a.posonlyargs + a.args + a.kwonlyargs:
+        if arg.arg == p and arg.annotation is not None:
+            return src_of(arg.annotation)
+    return None
 
 
 def _scalar_like(fi, p):
